@@ -96,9 +96,18 @@ pub fn run(ctx: &Ctx) -> Report {
                 gen_param_of(rng, t, u, null)
             })
             .collect();
+        // the statement's id is the backend's choice (any u32, the edges included), and it need not be
+        // the statement prepared last: in a third of the cases another statement, with another
+        // parameter list, is prepared between this one's PREPARE and its EXECUTE
+        let sid = if rng.chance(1, 3) { *rng.pick(&[0u32, 1, u32::MAX, u32::MAX - 1, 0x8000_0000, 0x7FFF_FFFF, 0x00FF_FFFF, 0x0100_0000]) } else { 0x0A0B_0C0D };
         let mut cv = Conv::default();
-        cv.push(MCmd::Prepare(b"p".to_vec()), Some(Script::PrepOk { id: 0x0A0B_0C0D, params: param_cols(np), cols: vec![] }));
-        cv.push(MCmd::Execute { id: 0x0A0B_0C0D, params: params.clone(), send_types: true }, None);
+        cv.push(MCmd::Prepare(b"p".to_vec()), Some(Script::PrepOk { id: sid, params: param_cols(np), cols: vec![] }));
+        if rng.chance(1, 3) {
+            let other = if sid == 7 { 8 } else { 7 };
+            cv.push(MCmd::Prepare(b"another".to_vec()), Some(Script::PrepOk { id: other, params: param_cols(rng.range(0, 3) as usize), cols: vec![] }));
+            rep.counters.inc("executions_of_a_statement_that_was_not_prepared_last");
+        }
+        cv.push(MCmd::Execute { id: sid, params: params.clone(), send_types: true }, None);
         let mut case = cv.case();
         vary_transport(rng, &mut case);
         case.conv = true;
